@@ -76,7 +76,7 @@ PROPS = {
         runs={"quick": [["query-C15", "--scenarios", "15000"]], "thorough": [["query-C15", "--scenarios", "300000"]]},
         trusted=QUERY_TRUST,
         statement="accepted ⇒ all tokens consumed; a condition after `null` is taken into account",
-        partial="proved: acceptance only at EOF for every token source; the null literal is consumed. The corollaries 'A J / A B rejected' for rendered expressions are checked by correspondence on generated triples",
+        partial="proved: acceptance only at EOF for every token source; the null literal is consumed (null_then_and: a condition after 'x == null' counts); expression_then_junk_is_rejected: for EVERY expression e (canonical tokens, any depth) followed by any token that is not AND/OR/comparison/EOF and any further tokens, the parse is refused with 'unexpected token after expression'. The lexer is outside these theorems (checked by exact correspondence of token streams and parse results on generated texts)",
     ),
     "C03": dict(
         modules=["Syzgy.Props.C03"], ties=["Search"],
